@@ -306,14 +306,17 @@ fn judge(c: &Cell, out: &[u8], err: &[u8]) -> Option<(String, String)> {
             i += 1;
         }
     }
-    // styled levels must carry a style, the unstyled one (Debug) must not
+    // every highlighted group of a styled level carries exactly one style and one reset; Debug carries none:
+    // line 1 has one group, line 2 has the nested pair and three groups with width specs
     let lines: Vec<&[u8]> = target_bytes.split(|x| *x == b'\n').collect();
     for (k, l) in LEVELS.iter().enumerate() {
-        let line = lines.get(2 * k).copied().unwrap_or(&[]);
-        let has = line.contains(&0x1b);
-        let want = *l != Level::Debug;
-        if has != want {
-            return Some(("highlight:style-presence".into(), format!("level {}: escapes present = {}, expected {}", l, has, want)));
+        for (li, groups) in [(2 * k, 1usize), (2 * k + 1, 5usize)] {
+            let line = lines.get(li).copied().unwrap_or(&[]);
+            let n = line.iter().filter(|b| **b == 0x1b).count();
+            let want = if *l == Level::Debug { 0 } else { 2 * groups };
+            if n != want {
+                return Some(("highlight:style-presence".into(), format!("level {}, line {}: {} escape sequences, expected {} (one style and one reset per highlighted group): {:?}", l, li % 2 + 1, n, want, String::from_utf8_lossy(line))));
+            }
         }
     }
     None
